@@ -332,7 +332,7 @@ func (o *structFieldsCBOR) FromCBOR(dm cbor.DecMode, data []byte) error {
 		return err
 	}
 
-	if mapLen != 0 {
+	if additionalInfo != 31 { // definite length (an empty map has length 0)
 		// every entry takes at least two bytes: do not let a declared
 		// length reserve memory for entries that cannot be present
 		sizeHint := mapLen
@@ -348,7 +348,7 @@ func (o *structFieldsCBOR) FromCBOR(dm cbor.DecMode, data []byte) error {
 				return fmt.Errorf("map item %d: %w", i, err)
 			}
 		}
-	} else { // mapLen == 0 --> indefinite encoding
+	} else { // additional information 31 --> indefinite encoding
 		o.Fields = make(map[int]cbor.RawMessage)
 
 		i := 0
